@@ -19,12 +19,14 @@ def pad_total(n, L):
     return 2 * ((n + L - 1) // 2 - 1) - n + L
 
 
-def modules(dims, m, J, filt):
+def modules(dims, m, J, filt, salt=None):
+    if salt is None:
+        salt = tuple(int(np.size(f)) for f in filt) + tuple(float(np.ravel(f)[0]) for f in filt)
     from pytorch_wavelets.dwt.transform1d import DWT1DForward, DWT1DInverse
     from pytorch_wavelets.dwt.transform2d import DWTForward, DWTInverse
     if dims == 1:
-        return DWT1DForward(J=J, wave=filt, mode=gen.MODE_NAME[m]), DWT1DInverse(wave=filt, mode=gen.MODE_NAME[m])
-    return DWTForward(J=J, wave=filt, mode=gen.MODE_NAME[m]), DWTInverse(wave=filt, mode=gen.MODE_NAME[m])
+        return DWT1DForward(J=J, wave=filt, mode=gen.lib_mode(m, 'f', dims, J, salt)), DWT1DInverse(wave=filt, mode=gen.lib_mode(m, 'i', dims, J, salt))
+    return DWTForward(J=J, wave=filt, mode=gen.lib_mode(m, 'f', dims, J, salt)), DWTInverse(wave=filt, mode=gen.lib_mode(m, 'i', dims, J, salt))
 
 
 def flat(ts):
@@ -35,7 +37,7 @@ def oracle_fwd_grad(ck, dims, m, J, filt, shape):
     """autograd of the forward module vs J^T g with J assembled from the forward pass on unit impulses"""
     rng = ck.rng
     L = len(filt[0])
-    fwd, _ = modules(dims, m, J, filt)
+    fwd, _ = modules(dims, m, J, filt, tuple(shape))
     n_in = int(np.prod(shape))
     desc = '%dD forward-module gradient mode=%s J=%d L=%d shape=%s' % (dims, gen.MODE_NAME[m], J, L, tuple(shape))
     replay = {'oracle': 'fwd_grad', 'dims': dims, 'm': m, 'J': J, 'filt': [arr_json(f) for f in filt], 'shape': list(shape), 'seed_note': 'cotangent drawn from the check PRNG'}
@@ -86,7 +88,7 @@ def oracle_inv_grad(ck, dims, m, J, filt, size, mask):
     """autograd of the inverse module for the requires_grad subset `mask` (bit 0: yl, bit j: yh[j-1])"""
     rng = ck.rng
     L = len(filt[0])
-    _, inv = modules(dims, m, J, filt)
+    _, inv = modules(dims, m, J, filt, (size, mask))
     if dims == 1:
         hs, nl = pyramid_shapes_1d(size, L, m, J)
         shapes = [(1, 1, nl)] + [(1, 1, h) for h in hs]
